@@ -52,3 +52,11 @@ Lemma up4_reconnect_refuted :
 Proof.
   split; [vm_compute; reflexivity|]. intros f Hf. apply bad_field_witness. rewrite up4_bad_all. exact Hf.
 Qed.
+
+(* atomic regions of the generated table *)
+Lemma atomic_steps_tied : atomic_ok atomic_steps atomic_tbl = true.
+Proof. vm_compute. reflexivity. Qed.
+Lemma application_write_outside : atomic_ok application_steps_with_write atomic_tbl = false /\
+  forallb (fun a => negb (prefix "UP4.addInternalApplication" (af_func a) || prefix "UP4.removeInternalApplication" (af_func a))
+                    || (af_covered a && Nat.eqb (af_dp_calls a) 0)) atomic_tbl = true.
+Proof. vm_compute. split; reflexivity. Qed.
